@@ -283,22 +283,33 @@ Proof.
   - repeat constructor.
 Qed.
 
-(* the run succeeds: 4 annotated concepts on 4 different nodes, 2 blank type
-   nodes (F(F(B)) and nothing else: F(B) is canonical) *)
+(* the run succeeds: 4 annotated concepts on 4 different nodes, one blank type
+   node (for F(F(B)); F(B) is canonical).  [tr_has] is membership (tr_has_In). *)
 Example ex_run : exists g st, annot_exprs exSw exL exNs exCanon (csup exH exCanon) [exE] = Some (g, st) /\
   g_next g = 4 /\ t_next st = 1 /\
-  (* the source of type C is below C, B, A and Top *)
-  In (TEn 3, PSubtypeOf, TUri (exNs ++ [65])) (t_tr st) /\
-  (* the middle step has the canonical type F(B) and with it F(A) and F(Top) *)
-  In (TEn 1, PType, TUri (exNs ++ [70; 45; 66])) (t_tr st) /\
-  In (TEn 1, PSubtypeOf, TUri (exNs ++ [70; 45; 84; 111; 112])) (t_tr st) /\
-  (* the outer step has a blank type node described by its operator and parameter *)
-  In (TEn 0, PType, TBn 0) (t_tr st) /\
-  In (TBn 0, PSubClassOf, TUri (exNs ++ [70])) (t_tr st) /\
-  In (TBn 0, PParam 1, TUri (exNs ++ [70; 45; 66])) (t_tr st) /\
-  In (TRoot, PContainsOperation, TUri (exNs ++ [102; 49])) (t_tr st) /\
-  In (TRoot, PContainsType, TBn 0) (t_tr st).
+  forallb (tr_has (t_tr st))
+    [ (* the source of type C is below C, B, A and Top *)
+      (TEn 3, PSubtypeOf, TUri (exNs ++ [65]));
+      (TEn 3, PSubtypeOf, TUri (TFns ++ [84; 111; 112]));
+      (* the middle step has the canonical type F(B) and with it F(A) and F(Top) *)
+      (TEn 1, PType, TUri (exNs ++ [70; 45; 66]));
+      (TEn 1, PSubtypeOf, TUri (exNs ++ [70; 45; 65]));
+      (TEn 1, PSubtypeOf, TUri (exNs ++ [70; 45; 84; 111; 112]));
+      (* the outer step has a blank type node described by its operator and parameter *)
+      (TEn 0, PType, TBn 0);
+      (TBn 0, PSubClassOf, TUri (exNs ++ [70]));
+      (TBn 0, PParam 1, TUri (exNs ++ [70; 45; 66]));
+      (TEn 0, PVia, TUri (exNs ++ [102; 49]));
+      (TRoot, PContainsOperation, TUri (exNs ++ [102; 49]));
+      (TRoot, PContainsOperation, TUri (exNs ++ [102; 48]));
+      (TRoot, PContainsType, TBn 0);
+      (TRoot, PContainsType, TUri (exNs ++ [66])) ] = true /\
+  (* ... and no supertypes on the outer step, whose type is not canonical *)
+  existsb (fun x => term_eqb (fst (fst x)) (TEn 0) && apred_eqb (snd (fst x)) PSubtypeOf) (t_tr st) = false.
 Proof.
-  eexists. eexists. split; [vm_compute; reflexivity|].
-  repeat split; cbn; tauto.
+  eexists. eexists. split; [vm_compute; reflexivity|]. vm_compute. repeat split.
 Qed.
+
+Theorem C07_example_membership_is_In : forall tr x, tr_has tr x = true <-> In x tr.
+Proof. exact tr_has_In. Qed.
+Print Assumptions C07_example_membership_is_In.
